@@ -33,6 +33,21 @@ def _braces_entries(ctx):
             fn = m.functions[v.id]
             rets = [r for r in walk_local(fn.node) if isinstance(r, ast.Return)]
             out.append((norm(k), fn.node, fn.params[0] if fn.params else None, rets[0].value if rets else None))
+        elif isinstance(v, ast.Call) and isinstance(v.func, ast.Name) and v.func.id in m.functions:
+            # a factory:  F(open, close, empty) returning a nested getter that returns (those parameters)
+            F = m.functions[v.func.id]
+            from ..astutil import inline as _inl, single_defs as _sdf, substitute_call
+            inner = [x for x in F.node.body if isinstance(x, ast.FunctionDef)]
+            rets_F = [r for r in F.node.body if isinstance(r, ast.Return)]
+            body = None
+            if len(inner) == 1 and len(rets_F) == 1 and norm(rets_F[0].value) == inner[0].name:
+                ir = [r for r in ast.walk(inner[0]) if isinstance(r, ast.Return)]
+                if len(ir) == 1 and ir[0].value is not None:
+                    closed = _inl(ir[0].value, _sdf(F.node))
+                    body = substitute_call(F.node, v, closed)
+            if body is None:
+                raise AnalysisError(f"_BRACES[{norm(k)}] is built by `{norm(v)}`, a factory whose result cannot be read off its source")
+            out.append((norm(k), v, None, body))
         else:
             raise AnalysisError(f"_BRACES[{norm(k)}] is neither a lambda nor a module function")
     return m, out
@@ -100,15 +115,22 @@ def r16_2(ctx):
             return []
         return [c for c in ast.walk(e) if isinstance(c, ast.Call) and norm(expand_alias(c.func, aliases)) == name]
 
-    pushes = [nd for nd in g.stmt_nodes() if nd.kind == "stmt" and calls_to(nd, "visited_ids.add")]
-    pops = [nd for nd in g.stmt_nodes() if nd.kind == "stmt" and (calls_to(nd, "visited_ids.remove") or calls_to(nd, "visited_ids.discard"))]
+    # a set (add / remove) or, because containers are entered and left in strictly nested order, a stack (append / pop)
+    pushes = [nd for nd in g.stmt_nodes() if nd.kind == "stmt" and (calls_to(nd, "visited_ids.add") or calls_to(nd, "visited_ids.append"))]
+    pops = [nd for nd in g.stmt_nodes() if nd.kind == "stmt" and (calls_to(nd, "visited_ids.remove") or calls_to(nd, "visited_ids.discard") or [c for c in calls_to(nd, "visited_ids.pop") if not c.args])]
     recs = [nd for nd in g.stmt_nodes() if nd.kind in ("stmt", "test", "for") and calls_to(nd, "_traverse")]
     ctx.check(len(pushes) >= 1 and len(pops) >= 1, f.fq, "push_visited / pop_visited", f.where, "visited set is pushed and popped", "_traverse no longer pushes and pops the visited-id set: cycles recurse forever or shared objects print as '...'")
     if not pushes or not pops:
         return
     for p in pushes:
-        arg = norm(calls_to(p, "visited_ids.add")[0].args[0])
-        same_pops = {q.id for q in pops if norm((calls_to(q, "visited_ids.remove") or calls_to(q, "visited_ids.discard"))[0].args[0]) == arg}
+        arg = norm((calls_to(p, "visited_ids.add") or calls_to(p, "visited_ids.append"))[0].args[0])
+
+        def pops_same(q):
+            by_value = calls_to(q, "visited_ids.remove") or calls_to(q, "visited_ids.discard")
+            if by_value:
+                return norm(by_value[0].args[0]) == arg
+            return True  # stack pop(): removes the most recent push, which under strict nesting is this id
+        same_pops = {q.id for q in pops if pops_same(q)}
         w = g.must_pass(p.id, same_pops, {g.exit})
         ctx.check(w is None, f.fq, short(p.stmt), f"{m.relpath}:{p.lineno}", f"every normal path after push_visited({arg}) pops it again",
                   f"a path leaves _traverse after push_visited({arg}) without pop_visited({arg}): a container that merely occurs twice (e.g. the same empty tuple) is later reported as a cycle '...'", g.describe_path(w) if w else None)
@@ -133,6 +155,13 @@ def r16_3(ctx):
     m = ctx.repo.mod("pretty")
     f = m.functions.get("traverse.<locals>._traverse")
     tr = m.functions.get("traverse.<locals>.to_repr")
+    if tr is None and m.functions.get("traverse") is not None:
+        # to_repr = partial(<module-level function>, max_string=max_string)
+        for x in walk_local(m.functions["traverse"].node):
+            if isinstance(x, ast.Assign) and norm(x.targets[0]) == "to_repr" and isinstance(x.value, ast.Call) and norm(x.value.func) in ("partial", "functools.partial") and x.value.args and isinstance(x.value.args[0], ast.Name):
+                cand = m.functions.get(x.value.args[0].id)
+                if cand is not None and all(k.arg == norm(k.value) for k in x.value.keywords):
+                    tr = cand
     if f is None or tr is None:
         raise AnchorVanished("pretty.traverse inner functions not found")
     # islice calls anywhere inside traverse (its nested helpers included)
@@ -286,11 +315,24 @@ def r16_5(ctx):
     m = ctx.repo.mod("pretty")
     f = m.fn("Node.check_length")
     loops = [x for x in walk_local(f.node) if isinstance(x, ast.For)]
-    ok = len(loops) == 1 and norm(loops[0].iter) == "self.iter_tokens()" and any(isinstance(b, ast.AugAssign) and norm(b.value) == f"cell_len({norm(loops[0].target)})" for b in loops[0].body)
-    ctx.check(ok, f.fq, "for token in self.iter_tokens(): total_length += cell_len(token)", f.where, "the length test walks the printed tokens",
+    uses_tokens = any(isinstance(c, ast.Call) and norm(c.func) == "self.iter_tokens" for c in walk_local(f.node))
+    ctx.check(uses_tokens, f.fq, "self.iter_tokens()", f.where, "the length test walks the printed tokens",
               "Node.check_length no longer measures the tokens produced by iter_tokens(): a separately maintained length (e.g. a cached per-node width) can disagree with what is printed - such as the trailing comma of a one-element tuple - so a container stays on one line although it is wider than max_width")
-    src = norm(f.node)
-    ctx.check("total_length = start_length" in src and "if total_length > max_length" in src, f.fq, "start_length / max_length", f.where, "prefix counted and compared with the limit", "check_length does not start from start_length or compare with max_length")
+    if uses_tokens:
+        if len(loops) == 1 and norm(loops[0].iter) == "self.iter_tokens()":
+            acc_ok = any(isinstance(b, ast.AugAssign) and isinstance(b.op, ast.Add) and norm(b.value) == f"cell_len({norm(loops[0].target)})" for b in loops[0].body)
+            src = norm(f.node)
+            ctx.check(acc_ok and "total_length = start_length" in src and "if total_length > max_length" in src, f.fq, "start_length / max_length", f.where, "every token's cell_len is added to the prefix length and compared with the limit",
+                      "check_length does not add cell_len of every token to start_length or does not compare with max_length")
+        else:
+            from ..astutil import inline as _inl, single_defs as _sdf
+            rets = [r for r in walk_local(f.node) if isinstance(r, ast.Return) and r.value is not None]
+            closed = norm(_inl(rets[-1].value, _sdf(f.node))) if rets else ""
+            running = "accumulate(chain((start_length,), map(cell_len, self.iter_tokens())))"
+            forms = (f"not any((length > max_length for length in islice({running}, 1, None)))", f"all((length <= max_length for length in islice({running}, 1, None)))")
+            if closed not in forms:
+                raise AnalysisError(f"Node.check_length: the accumulation `{closed[:160]}` over iter_tokens() is written in a form this rule does not interpret; the measure = render clause cannot be decided")
+            ctx.ok(f.where, "running sum of cell_len over the printed tokens, seeded with start_length, compared with max_length", f.fq)
     g = m.fn("_Line.check_length")
     ctx.check("len(self.whitespace) + cell_len(self.text) + cell_len(self.suffix)" in norm(g.node), g.fq, "start_length", g.where, "indent, text and suffix are counted", "_Line.check_length does not count whitespace + text + suffix")
 
